@@ -29,7 +29,12 @@ def family(thorough):
     # NULL tests above aggregation / on the base table (controls)
     qs += ['SELECT t.a FROM t WHERE t.a IS NULL', 'SELECT t.a FROM t WHERE t.a IS NOT NULL', 'SELECT (max(t.a) IS NULL) FROM t', 'SELECT w.p, (min(t.a) IS NULL) FROM w LEFT JOIN t ON w.q = t.a GROUP BY w.p',
            'SELECT u.x FROM u WHERE u.x IN (SELECT t.a FROM t) OR u.x IS NULL', 'SELECT u.x FROM u WHERE NOT EXISTS (SELECT 1 FROM t WHERE t.a = u.x)']
-    return [('family:outer-join-null-tests', ddl, qs)]
+    # choices the cost model makes between physical alternatives that differ in what they promise (sorted output or not):
+    # grouped and ordered queries on a key, whose plan depends on the row estimates (the tiny-statistics configurations)
+    qs2 = ['SELECT a, count(*) FROM t GROUP BY a ORDER BY a', 'SELECT a, sum(b) FROM t WHERE b > 0 GROUP BY a ORDER BY a', 'SELECT p, count(*), max(q) FROM w GROUP BY p ORDER BY p DESC',
+           'SELECT a, b, count(*) FROM t GROUP BY a, b ORDER BY a, b', 'SELECT a FROM t ORDER BY a', 'SELECT a, b FROM t WHERE b > 0 ORDER BY a', 'SELECT DISTINCT a FROM t ORDER BY a',
+           'SELECT a, max(c) FROM t GROUP BY a ORDER BY a DESC']
+    return [('family:outer-join-null-tests', ddl, qs), ('family:cost-dependent-order', ddl, qs2)]
 
 
 def main(tier, only=None):
@@ -48,6 +53,7 @@ def main(tier, only=None):
         rules_check.run(rep, rules, K, thorough, select=sel)
     if os.environ.get('C01_LAYER', 'both') in ('both', 'queries'):
         from . import query_layer
+        query_layer.TINY_STATS['on'] = True
         query_layer.run(rep, 'C01', K, thorough, 1500 if thorough else 150, only=only, extra_groups=family(thorough))
     # what R's scan model cannot see: how the executor turns a pushed predicate into a storage key range.  The scan
     # conformance probes compare, on the real disk engine, every small key-range query with the optimizer on (range pushed
